@@ -86,6 +86,22 @@ add("C13",
     "exercised (mpi4py absent). Clause (b) is a test, labelled as such in the evidence. Axiom-free.",
     "Rocq/Coq proof over all crash prefixes + fault-injection correspondence; differential test for the dill clause")
 
+add("C18",
+    "Coq theorems over a store-based model of AGraph objects (arrays are cells, objects hold references to a raw and a cached "
+    "array, an immutable constant tuple and flags): for ANY history of setter writes, row writes through a fresh mutable view, "
+    "constant writes, observations, fitness/age writes and copies on ANY number of objects, with reduce_stack/simplify_stack an "
+    "ARBITRARY function - every observation equals that of a freshly constructed equation with the same stack, flag and "
+    "constants; the cache is coherent whenever the modified flag is down; both write paths install the written stack, raise the "
+    "flag and clear fitness; a copy equals its source field by field at copy time; operations on other objects (source, copy, "
+    "copies of copies) never change an object's arrays, constants, flags, fitness, age or observations (reference disjointness "
+    "is an invariant). Tie: random histories on real AGraph objects, white-box state after every step compared with the model "
+    "inside Coq (reduce_stack = the C01 model; simplify_stack = recorded table, checked to be a function); oracle: every "
+    "observation against a fresh AGraph, all other objects unchanged after every operation, copy observes like its source.",
+    "Trusted: Coq kernel + vm_compute for the comparison; S abstract (its own correctness is C01/C03); numpy array identity is "
+    "modelled by store references (views other than a freshly obtained mutable_command_array are outside the model); wrong-length "
+    "constant writes outside the property; string constructor covered by scripted scenarios (F18 fixed). Axiom-free.",
+    "Rocq/Coq proof (for all histories, all S) + white-box differential correspondence")
+
 add("C19",
     "Coq theorems over an executable model of Evaluation (_serial_eval, _multiprocess_eval with _fitness_job on pickled copies and "
     "the counter-delta protocol), of the eval_count delegation through LocalOptFitnessFunction, and of the per-island counters of "
